@@ -295,6 +295,9 @@ def main(argv):
 EXPECT_GATHER = 'useindexmap::map::Entry;letinstr_format=hooks.instr_format();letmutoffset=initial_offset;letmutlabels=IndexMap::new();letmutstmt_offsets=vec![];letmutdebug_info_instrs=do_debug_info.then(||vec![]);letmutdebug_info_labels=do_debug_info.then(||vec![]);letmutencoding_state=ArgEncodingState::new();code.iter().enumerate().map(|(index,stmt)|{stmt_offsets.push(offset);matchstmt.value{LowerStmt::Instr(refinstr)=>{emitter.chain_with(|f|write!(f,"ininstruction{index}"),|emitter|{ifletSome(debug_info_instrs)=&mutdebug_info_instrs{debug_info_instrs.push(debug_info::Instr{offset,span:stmt.span.into()});}letsame_size_instr=substitute_dummy_args(instr);letraw_instr=encode_args(&mutencoding_state,hooks,&same_size_instr,defs,emitter)?;offset+=instr_format.instr_size(&raw_instr)asu64;Ok(())})?;},LowerStmt::Label{time,reflabel}=>{matchlabels.entry(label.clone()){Entry::Vacant(e)=>{ifletSome(debug_info_labels)=&mutdebug_info_labels{debug_info_labels.push(debug_info::Label{offset,time,name:label.to_string(),span:label.span.into(),})}e.insert(RawLabelInfo{time,offset});},Entry::Occupied(e)=>{returnErr(emitter.emit(error!{message("duplicatelabel\'{label}\'"),secondary(e.key(),"originallydefinedhere"),primary(label,"redefinedhere"),}));},}},_=>{},}Ok(())}).collect_with_recovery::<()>()?;letdebug_info=do_debug_info.then(||debug_info::ScriptOffsetInfo{instrs:debug_info_instrs.unwrap(),labels:debug_info_labels.unwrap(),end_offset:offset,});letoutput=LabelInfoverse{labels,stmt_offsets};Ok((output,debug_info))'
 EXPECT_DUMMY = 'let&LowerInstr{refargs,..}=instr;letnew_args=matchargs{LowerArgs::Unknown(blob)=>LowerArgs::Unknown(blob.clone()),LowerArgs::Known(args)=>LowerArgs::Known(args.iter().map(|arg|matcharg.value{|LowerArg::Label(_)|LowerArg::TimeOf(_)=>sp!(arg.span=>LowerArg::Raw(SimpleArg{value:ScalarValue::Int(0),is_reg:false})),|LowerArg::Local{..}=>sp!(arg.span=>LowerArg::Raw(SimpleArg{value:ScalarValue::Int(0),is_reg:true})),|LowerArg::DiffSwitch(_)=>panic!("shouldbehandledearler,elseoffsetswillbewrong..."),|LowerArg::Raw(_)=>arg.clone(),}).collect())};LowerInstr{args:new_args,..*instr}'
 EXPECT_FINAL = 'let(label_info,debug_info_labels)=gather_label_info(hooks,0,&out,&ctx.defs,&ctx.emitter,do_debug_info)?;encode_labels(&mutout,hooks,&label_info,&ctx.emitter)?;letmutencoding_state=ArgEncodingState::new();letinstrs=out.into_iter().filter_map(|x|matchx.value{LowerStmt::Instr(instr)=>Some({letnull_emitter=ctx.emitter.with_writer(crate::diagnostic::dev_null());encode_args(&mutencoding_state,hooks,&instr,&ctx.defs,&null_emitter).expect("weencodedthissuccessfullybefore!")}),LowerStmt::Label{..}=>None,LowerStmt::RegAlloc{..}=>None,LowerStmt::RegFree{..}=>None,}).collect();'
+# the same pass after fix 737a4a1: an argument that stops fitting its encoding once labels are resolved is an error
+# (the sub is not written) instead of a panic; on success the emitted instructions are the same
+EXPECT_FINAL2 = 'let(label_info,debug_info_labels)=gather_label_info(hooks,0,&out,&ctx.defs,&ctx.emitter,do_debug_info)?;encode_labels(&mutout,hooks,&label_info,&ctx.emitter)?;letmutencoding_state=ArgEncodingState::new();letinstrs=out.into_iter().filter_map(|x|matchx.value{LowerStmt::Instr(instr)=>Some({letnull_emitter=ctx.emitter.with_writer(crate::diagnostic::dev_null());encode_args(&mutencoding_state,hooks,&instr,&ctx.defs,&null_emitter).or_else(|_|{encode_args(&mutArgEncodingState::new(),hooks,&instr,&ctx.defs,&ctx.emitter).and_then(|_|Err(ctx.emitter.emit(error!("failedtoencodeaninstructionafterresolvinglabels"))))})}),LowerStmt::Label{..}=>None,LowerStmt::RegAlloc{..}=>None,LowerStmt::RegFree{..}=>None,}).collect::<Result<Vec<_>,ErrorReported>>()?;'
 
 def lowering_text_notes():
     sys.path.insert(0, os.path.join(VERIF, 'gen'))
@@ -308,5 +311,5 @@ def lowering_text_notes():
     if b is None or rsparse.nows(b) != EXPECT_GATHER: notes.append('unrecognised: gather_label_info differs from the text the model was written against')
     b, _ = rsparse.block_after(src, r'fn\s+substitute_dummy_args\s*\(instr:\s*&LowerInstr\)\s*->\s*LowerInstr\s*')
     if b is None or rsparse.nows(b) != EXPECT_DUMMY: notes.append('unrecognised: substitute_dummy_args differs from the text the model was written against')
-    if EXPECT_FINAL not in rsparse.nows(src): notes.append('unrecognised: the final encoding pass of lower_sub_ast_to_instrs differs from the text the model was written against')
+    if EXPECT_FINAL not in rsparse.nows(src) and EXPECT_FINAL2 not in rsparse.nows(src): notes.append('unrecognised: the final encoding pass of lower_sub_ast_to_instrs differs from the text the model was written against')
     return notes
